@@ -28,6 +28,7 @@ Place expressions:
   ('local', fid, n) ('deref', v) ('field', place, name, variant) ('index', place, v)
 """
 from .facts import strip_generics
+from .cfg import CFG
 
 ORDERING = {'255': 'Less', '0': 'Equal', '1': 'Greater', '-1': 'Less'}
 
@@ -96,6 +97,52 @@ def place_root(p):
     while p[0] in ('field', 'index'):
         p = p[1]
     return p
+
+
+def loop_info(body):
+    """header block -> set of locals assigned (or mutably borrowed) inside the natural loop(s) of that header."""
+    li = getattr(body, '_loop_info', None)
+    if li is not None:
+        return li
+    li = {}
+    try:
+        cfg = CFG(body)
+    except Exception:
+        body._loop_info = li
+        return li
+    for (a, h) in cfg.back_edges():
+        # natural loop of back edge a->h
+        nodes = {h, a}
+        st = [a]
+        while st:
+            x = st.pop()
+            for p in cfg.pred.get(x, []):
+                if p not in nodes and p in cfg.reach:
+                    nodes.add(p)
+                    if p != h:
+                        st.append(p)
+        hdr = h
+        # the header of an edge-split node is the block it leads to / from
+        if not isinstance(hdr, int):
+            continue
+        assigned = li.setdefault(hdr, set())
+        for n in nodes:
+            if not isinstance(n, int):
+                continue
+            bl = body.blocks[n]
+            for s_ in bl['stmts']:
+                if 'lhs' in s_:
+                    assigned.add(s_['lhs']['local'])
+                    rv = s_['rv']
+                    if rv['k'] in ('ref', 'rawptr') and rv.get('mut', True):
+                        assigned.add(rv['place']['local'])
+                elif 'setdiscr' in s_:
+                    assigned.add(s_['setdiscr']['local'])
+            t = bl['term']
+            if t['k'] == 'call':
+                assigned.add(t['dest']['local'])
+    body._loop_info = li
+    return li
 
 
 class Executor:
@@ -347,6 +394,9 @@ class Executor:
         if k == 'binop':
             a = self.operand(body, fid, st, r['a'])
             b = self.operand(body, fid, st, r['b'])
+            if r['op'].endswith('WithOverflow'):
+                base = r['op'][:-len('WithOverflow')]
+                return ('agg', 'tuple', '', '', ('0', '1'), (fold_binop(base, a, b), ('binop', base + 'Overflows', a, b)))
             return fold_binop(r['op'], a, b)
         if k == 'unop':
             a = self.operand(body, fid, st, r['a'])
@@ -485,6 +535,10 @@ class Executor:
                 return
             st.visits[key] = n
             bl = blocks[block]
+            if not isinstance(fid, tuple):
+                li = loop_info(body)
+                if block in li:
+                    self._widen(st, fid, block, n, li[block])
             for s in bl['stmts']:
                 if 'lhs' in s:
                     v = self.rvalue(body, fid, st, s['rv'])
@@ -651,6 +705,25 @@ class Executor:
             yield st, 'unreachable', None
             return
 
+    def _widen(self, st, fid, header, visit, assigned):
+        """Loop head: values carried around the loop are unknown (sound for any number of iterations)."""
+        for L in assigned:
+            P = ('local', fid, L)
+            if P in st.store:
+                v = st.store[P]
+                if v[0] in ('ref',):
+                    continue    # references to fixed places stay what they are
+                st.store[P] = ('loopvar', fid, L, header, visit)
+            for Q in [Q for Q in st.store if Q != P and is_prefix(P, Q)]:
+                del st.store[Q]
+        # memory reached through references may have been written by earlier iterations
+        st.ncalls += 1
+        cid = st.ncalls
+        for Q in [Q for Q in st.store if place_root(Q)[0] != 'local']:
+            del st.store[Q]
+            st.havocs.append((Q, cid, None))
+        st.facts = {k: v for k, v in st.facts.items() if not _mentions_loopy(k)}
+
     def _is_user_place(self, body, P):
         return False
 
@@ -675,6 +748,10 @@ class Executor:
                 'body': body.nname, 'depth': depth, 'dty': t.get('dty', ''), 'resolved': resolved}
 
 
+def _mentions_loopy(v, depth=0):
+    return False
+
+
 # ------------------------------------------------------------------ folding
 
 def fold_binop(op, a, b):
@@ -683,6 +760,8 @@ def fold_binop(op, a, b):
         r = {'Eq': x == y, 'Ne': x != y, 'Lt': x < y, 'Le': x <= y, 'Gt': x > y, 'Ge': x >= y}.get(op)
         if r is not None:
             return ('const', 'bool', int(r), 'true' if r else 'false')
+        if op == 'Add' and a[1] == b[1] and a[1] in ('usize', 'u16', 'u8', 'u32', 'u64'):
+            return ('const', a[1], x + y, str(x + y))
     if a[0] == 'variant' and b[0] == 'variant' and a[1] == b[1] and op in ('Eq', 'Ne'):
         r = (a[2] == b[2]) == (op == 'Eq')
         return ('const', 'bool', int(r), 'true' if r else 'false')
@@ -750,6 +829,9 @@ def show(v, body=None, depth=0):
         return 'fn ' + (v[2] or v[1])
     if k == 'havoc':
         return 'havoc#%d(%s)' % (v[2], s(v[1]))
+    if k == 'loopvar':
+        nm = body.local_names.get(v[2]) if (body is not None and v[1] == 0) else None
+        return '%s~%d' % (nm or ('_%d' % v[2]), v[4])
     if k in ('uninit', 'unknown'):
         return '?' + ':'.join(str(x) for x in v[1:])
     return str(v)
